@@ -366,3 +366,103 @@ def coq_pcase(c: dict, o: dict) -> str:
 
 PIPE_IMPORTS = ("From Annet Require Import Base.Str Base.Tree Model.Pattern Model.Rulebook Model.Diff Model.Order "
                 "Model.Patch Model.Blocks Model.Pipeline Spec.PipelineCase.")
+
+
+# ------------------------------------------------------------------ shared property driver
+
+def run_pipeline_property(ctx, theorem_file: str, *, holds: dict[str, str], extra_imports: str = "",
+                          n_quick: int = 1200, n_thorough: int = 12000, vendors=None, allow_modes=True,
+                          nontrivial=None, rule_text="", case_filter=None, tweak=None, impl_kw=None,
+                          agree=("diff_full", "diff", "patch", "paths", "lines"), what: dict | None = None,
+                          skip_proof=False):
+    """Generate pipeline cases, run the real pipeline, let Coq evaluate agreement with the
+    model and the property predicates `holds` (label -> Coq function pcase -> bool)."""
+    from . import core
+    if not skip_proof:
+        core.proof_stage(ctx, theorem_file)
+    rng = ctx.rng("pipeline")
+    n = n_thorough if ctx.thorough else n_quick
+    cases = []
+    while len(cases) < n:
+        c = gen_case(rng, vendors=vendors, allow_modes=allow_modes)
+        if tweak:
+            c = tweak(rng, c, len(cases))
+        if case_filter and not case_filter(c):
+            continue
+        cases.append(c)
+    outs = core.run_impl_sharded("pipeline_runner.py", [impl_payload(c, **(impl_kw or {})) for c in cases])
+    fatal = [i for i, o in enumerate(outs) if "fatal" in o or "diff_full_err" in o or
+             ("err" in o and o["err"] != "AssertionError")]
+    for i in fatal[:1]:
+        ctx.add_violation(core.Violation(
+            signature=f"{ctx.prop}/implementation-raised",
+            what="the real pipeline raised an unexpected exception: " + str(outs[i].get("fatal") or outs[i].get("err") or outs[i].get("diff_full_err"))[:300],
+            replay={"case": {k: cases[i][k] for k in ("vendor", "patching", "ordering", "old", "new")}, "impl": outs[i]}))
+    keep = [i for i in range(len(cases)) if i not in set(fatal)]
+    terms = [coq_pcase(cases[i], outs[i]) for i in keep]
+    preds = {f"agree_{a}": f"agree_{a}" for a in agree}
+    preds.update({f"holds_{k}": v for k, v in holds.items()})
+    res = core.run_case_files(ctx.prop, "pcase", PIPE_IMPORTS + "\n" + extra_imports, preds, terms, per_file=40)
+    res = {k: [keep[j] for j in v] for k, v in res.items()}
+
+    def rep(i):
+        return {"case": {k: cases[i][k] for k in ("vendor", "patching", "ordering", "old", "new")}, "impl": outs[i]}
+
+    any_holds_fail = False
+    for k in holds:
+        for i in res[f"holds_{k}"][:3]:
+            any_holds_fail = True
+            ctx.add_violation(core.Violation(
+                signature=f"{ctx.prop}/{k}",
+                what=(what or {}).get(k, f"property clause '{k}' is false on the implementation's output"),
+                replay=dict(rep(i), clause=k)))
+    if not any_holds_fail:
+        for a in agree:
+            for i in res[f"agree_{a}"][:1]:
+                ctx.add_violation(core.Violation(
+                    signature=f"{ctx.prop}/model-impl-disagree/{a}",
+                    what=f"Coq model and implementation differ on '{a}' (correspondence broken); the property "
+                         f"clauses hold on every implementation output explored",
+                    replay=dict(rep(i), correspondence=a), no_input=True))
+    seen = set()
+    nt = 0
+    for i in keep:
+        h = core.canon_hash([cases[i][k] for k in ("vendor", "patching", "ordering", "old", "new")])
+        if h in seen:
+            continue
+        seen.add(h)
+        if nontrivial is None or nontrivial(cases[i], outs[i]):
+            nt += 1
+    vend = {}
+    for c in cases:
+        vend[c["vendor"]] = vend.get(c["vendor"], 0) + 1
+    ctx.coverage.update({
+        "evaluations": len(cases),
+        "distinct_nontrivial": nt,
+        "rule": "random structured rulebooks (nesting<=4, *, ~, */re/, %global, %ordered, %rewrite, %parent, logics), "
+                "old drawn from the rules, new = mutation of old; distinct by (vendor, rulebooks, old, new); "
+                "non-trivial = " + (rule_text or "any"),
+        "samples": [rep(i) for i in keep[:2]],
+        "traces_validated_against_impl": len(keep),
+        "disagreements_checked": sum(len(res[f"agree_{a}"]) for a in agree),
+        "assertion_error_cases": sum(1 for o in outs if o.get("err") == "AssertionError"),
+        "vendor_histogram": vend,
+        "max_tree_depth": max((tree_depth(c["old"]) for c in cases), default=0),
+    })
+    ctx.assumptions += [
+        "rule patterns restricted to the plain rule language of Model/Pattern.v (C07)",
+        "not modelled: %ignore_case re-keying, %multiline, %comment/add_comments, vendor %logic/%diff_logic functions",
+    ]
+    return cases, outs, res
+
+
+def diff_size(d: list) -> int:
+    return sum(1 + diff_size(n["kids"]) for n in d)
+
+
+def diff_ops(d: list, acc=None) -> set:
+    acc = set() if acc is None else acc
+    for n in d:
+        acc.add(n["op"])
+        diff_ops(n["kids"], acc)
+    return acc
